@@ -14,6 +14,7 @@ import (
 	"math/rand/v2"
 	"sort"
 	"sync"
+	"sync/atomic"
 	"testing/synctest"
 	"time"
 
@@ -119,6 +120,7 @@ type gossipWorld struct {
 	history  []gWire
 	// model of each agent's topology: agent -> role -> set of names
 	model map[string]map[string]map[string]bool
+	stim  atomic.Uint64 // stimulus counter (bumped by collect)
 }
 
 func newGossipWorld(r *Run, na int, mk func(name, role string, idx int) *gossip.Agent) *gossipWorld {
@@ -132,18 +134,16 @@ func newGossipWorld(r *Run, na int, mk func(name, role string, idx int) *gossip.
 		g.emitted = append(g.emitted, gWire{a.Self.Name, dst.Name, append([]byte{}, wire...), m.TTL, hex.EncodeToString(h[:6])})
 		g.mu.Unlock()
 	}
-	var smu sync.Mutex
-	calls := map[string]uint64{}
 	gossip.SimShuffleHook = func(l *gossip.PeerList) bool {
 		sort.Slice(l.L, func(i, j int) bool { return l.L[i].Name < l.L[j].Name })
 		key := ""
 		for _, p := range l.L {
 			key += p.Name + ","
 		}
-		smu.Lock()
-		n := calls[key]
-		calls[key]++
-		smu.Unlock()
+		// The permutation depends on (seed, stimulus number, peer set) only: all
+		// sends caused by one stimulus see the same permutation of a peer set, so
+		// the order in which the runtime schedules concurrent sends cannot matter.
+		n := g.stim.Load()
 		if len(l.L) > 1 {
 			rg := subRng(seed, n, "shuffle/"+key)
 			rg.Shuffle(len(l.L), func(i, j int) { l.L[i], l.L[j] = l.L[j], l.L[i] })
@@ -254,6 +254,7 @@ func (g *gossipWorld) checkTopology(agent string) {
 // collect gathers the wires emitted by the last stimulus, in canonical order.
 func (g *gossipWorld) collect() []gWire {
 	synctest.Wait()
+	g.stim.Add(1)
 	g.mu.Lock()
 	e := g.emitted
 	g.emitted = nil
